@@ -60,6 +60,20 @@ def run(ctx):
         res = ctx.tlc("client", "MC_Client", mc_cfg(profile, depth, False), workers=core.NCPU, timeout=3000, heap="16g")
         ctx.log("MC (deep) profile %s depth %d: %d generated / %d distinct states" % (profile, depth, res.generated, res.distinct))
 
+    if prop == "C17":
+        # concurrent Close at the design level: sync.Once with 2-3 closers, and the check-then-act variant must fail
+        for closers, setpid in ((2, True), (3, True), (3, False)):
+            cfg = "\n".join(["SPECIFICATION Spec", "CONSTANTS", " Closers = {%s}" % ", ".join(map(str, range(1, closers + 1))),
+                             " SetPidUsed = %s" % str(setpid).upper(), ' Bug = "none"',
+                             "INVARIANTS ClosedAtMostOnce PidClearedAtMostOnce ExactlyOnceWhenDone", "PROPERTY EveryoneReturns",
+                             "CHECK_DEADLOCK FALSE"]) + "\n"
+            ctx.tlc("client", "CloseOnce", cfg, workers=2, timeout=600)
+        bug = ctx.tlc("client", "CloseOnce", cfg.replace('Bug = "none"', 'Bug = "CheckThenAct"').replace("PROPERTY EveryoneReturns\n", ""),
+                      workers=2, timeout=600, expect_violation=True)
+        if not bug.violation:
+            raise core.Broken("the check-then-act Close model was not rejected: vacuous CloseOnce invariants")
+        ctx.log("CloseOnce model: sync.Once with 2-3 concurrent closers closes and clears the PID exactly once; every caller returns")
+
     # ---- A -------------------------------------------------------------------------------
     trp = ctx.path("client", "trace.ndjson")
     every = prop == "C16"     # C16 reads the request bytes of every record: no inheritance
